@@ -75,7 +75,7 @@ type loadCase struct {
 	Chain    []int  `json:"chain"`
 	All      []int  `json:"all"`
 	PgpGot   int    `json:"pgp_got"`
-	KeyKept  bool   `json:"key_kept"`  // bundle's private key is the key passed in
+	KeyKept  bool   `json:"key_kept"`   // bundle's private key is the key passed in
 	PgpKeyOK bool   `json:"pgp_key_ok"` // entity.PrivateKey.PrivateKey is the key passed in
 }
 
